@@ -88,6 +88,28 @@ def check_prog(ctx, r, prog):
                             {"prog": pn, "query": k, "expected": v, "observed": wt[k]})
         if len(prog["parts"]) > 1 and len(union) >= 2:
             ctx.nontrivial([pn, "union", sorted(union)])
+    # a generic contract instantiated with other types, in the same process, publishes the table of *those* types
+    if prog.get("generics") and prog["error"] != "ErrT":
+        o2 = r.call({"prog": pn, "op": "schemas:w:alt"})
+        ctx.ev()
+        if "panic" in o2 or "ok" not in o2.get("res", {}):
+            ctx.violate("schemas-panic", f"{pn}: response table of a second instantiation failed: {str(o2)[:120]}", {"prog": pn, "obs": o2})
+        else:
+            t2 = o2["res"]["ok"]
+            gn = [g["name"] for g in prog["generics"]]
+            for h in handlers(prog, kind="query", part="c"):
+                decl = h.get("resp_decl_ti", h["resp_ti"])
+                if not any(n in T.params_in(prog["types"][decl]) for n in gn):
+                    continue
+                wn = T.wire_name(h["name"])
+                want = r.call({"prog": pn, "op": f"schema_ty_alt:{decl}"})["res"]["ok"]["root"]
+                ctx.ev()
+                if t2.get(wn) != want:
+                    ctx.violate("second-instantiation-schema", f"{pn}: ContractQueryMsg instantiated with other types maps `{wn}` to schema `{(t2.get(wn) or {}).get('title')}` "
+                                f"instead of `{want.get('title')}`", {"prog": pn, "query": h["hid"], "expected": want, "observed": t2.get(wn)})
+                else:
+                    ctx.nontrivial([pn, "alt", h["hid"]])
+                    ctx.count("second_instantiation_entries")
     # contract-level JSON schema = any-of of the parts' schemas
     for kind in KINDS_ENUM:
         ws = r.call({"prog": pn, "op": f"schema_for:w:{kind}"})
